@@ -1104,7 +1104,7 @@ get_tile_data and (every 4th case) get_tile_stream. Oracle = independent decoder
 (features without the id field are kept; a later CSV row replaces an earlier one with the same id). \
 non-trivial: C11p every case; C11d valid tiles; C11u cases where the expected output differs from the input; distinct by case text"
 		.into();
-	out.notes.push("checklist: 1 thresholds = sweep_string_lengths / sweep_table_sizes (0,1,127..129,255..257,16383..16385 bytes / entries; packed tag list 126/128/130 bytes), extents/versions 0,1,4095..4097,u32::MAX, ids 0/2^63/2^64-1, all varint widths in C11p; 2 faults = emit_paths (read error, wrong codec) + truncated tiles; 3 payloads = 0-byte, 1-byte, duplicate neighbours, truncated; 4 options = all 8 flag combinations x id types x missing layer / id field / id column; 5 reuse = lookup, stream, lookup on one operation object; 6 order = multi-tile streams compared per coordinate, sources that suspend; 7 n.a. (no HTTP); 8 coordinates = zoom 0..31, 32/256 borders; 9 encoder freedoms = 3 layer field orders, reversed feature fields, explicit defaults, padded varints/keys/tag ids, table duplicates, unused entries, int64/sint64 twins (unknown/extension fields, unpacked or split packed tag lists are rejected or overwritten by the decoder by design: not generated); 10 paths = stream vs lookup per coordinate, tile without the named layer vs plain re-encode byte for byte".into());
+	out.notes.push("checklist: 1 thresholds = sweep_string_lengths / sweep_table_sizes (0,1,127..129,255..257,16383..16385 bytes / entries; packed tag list 126/128/130 bytes), extents/versions 0,1,4095..4097,u32::MAX, ids 0/2^63/2^64-1, all varint widths in C11p; 2 faults = emit_paths (read error, wrong codec) + truncated tiles; 3 payloads = 0-byte, 1-byte, duplicate neighbours, truncated; 4 options = all 8 flag combinations x id types x missing layer / id field / id column; 5 reuse = lookup, stream, lookup on one operation object; 6 order = multi-tile streams compared per coordinate, sources that suspend; 7 n.a. (no HTTP); 8 coordinates = zoom 0..31, 32/256 borders; 9 encoder freedoms = 3 layer field orders, reversed feature fields, explicit defaults, padded varints/keys/tag ids, table duplicates, unused entries, int64/sint64 twins (unknown/extension fields, unpacked or split packed tag lists are rejected or overwritten by the decoder by design: not generated); 10 paths = stream vs lookup per coordinate, tile without the named layer vs plain re-encode byte for byte; 1b counter confusion = byte length vs element count of the packed tag list differ under padded tag ids (long_keys), varints of 10 and 11 bytes vs values of 64 bits, table size vs number of used entries (unused / duplicate entries); 11 fallbacks = absent vs explicit default fields (extent 4096, version 1, type 0, id none vs 0), number-shaped cells that are no numbers fall back to text (overflow, '1e5', '+1'), feature without the id field / id without a data row / tile without the named layer are kept unchanged, quoted vs unquoted cell path of the CSV lexer; C11csv = exhaustive short inputs over separators/quotes/CR/LF/blank/tab/NBSP/invalid UTF-8/BOM, C11g = geometry command streams incl. malformed ones".into());
 	let mut runner = Runner::new(&args.out);
 	if let Some(p) = &args.replay {
 		for line in std::fs::read_to_string(p).unwrap().lines() {
